@@ -67,6 +67,7 @@ class Judge:
         self.st = {}
         self.fail = {}          # property id -> first failure text
         self.counts = {}
+        self.stalled = set()    # connections that have been above the high-water mark at some time
 
     def flag(self, pid, k, msg):
         self.fail.setdefault(pid, 'event %d %r: %s' % (k, self.d.trace[k]['ev'][:2], msg))
@@ -145,6 +146,8 @@ class Judge:
             st['closing'] = True
             self.expect_quiet(k, newf, newclose - {q}, except_q=None, ctx='EOF of %d' % q, pid='C10')
             return
+        if typ in ('PW', 'RWPW') and rec['delivered']:
+            self.stalled.add(q)
         if typ in ('PW', 'RW'):
             self.expect_quiet(k, newf, newclose, except_q=None, ctx=typ, pid='C10')
             return
@@ -251,6 +254,13 @@ class Judge:
                                   % (r, chan, len(got), [(len(b)) for _, b in got][:3], me, chan, len(payload)))
                         self.flag('C08', k, 'subscriber %d of %r (last op SUBSCRIBE) got %d copies' % (r, chan, len(got)))
                         self.flag('C10', k, 'subscriber %d lost/duplicated a message it is entitled to' % r)
+                        ended = sorted(x for x, sx in self.st.items() if x != r and (sx['closing'] or sx['lost']))
+                        if ended:
+                            self.flag('C09', k, 'after connection(s) %s had ended / been dropped, a publish on %r did not proceed normally for '
+                                      'everyone else: subscriber %d got %d copies, expected one' % (ended, chan, r, len(got)))
+                        if self.stalled:
+                            self.flag('C15', k, 'while / after connection(s) %s were stalled, subscriber %d of %r got %d copies of a publish, '
+                                      'expected one (other subscribers must keep receiving throughout)' % (sorted(self.stalled), r, chan, len(got)))
                 elif got:
                     if s['closing']:
                         self.flag('C04', k, 'PUBLISH on %r written to closing connection %d' % (chan, r))
